@@ -5,7 +5,8 @@ Model driver for C02. One case = one history on a fresh Directory volume:
 
   (also: `points <id>,<id>,…` — the instrumenter's points.json; answers points-ok iff it is the
   model's skeleton)
-  seed:<B>:intact|corrupt|trash     environment: plant a copy of body B
+  seed:<B>:intact|corrupt|longer|shorter|trash     environment: plant a copy of body B
+  pool:<S>:<A>:<B>:<ja>             upload of S cut short, then PUT A held mid-copy while PUT B runs (see the Go driver)
   tick                              environment: all timestamps old, all trash deadlines expired, full marker stale
   full                              environment: the volume is marked full (<root>/full -> now)
   put:<B>:<mode>                    PUT through the router          mode = run | k<i> | c<i> | m<j>x<chunk> | f<i>[k<j>]
@@ -180,6 +181,10 @@ def stepOp (st : St) (op : String) (last : Bool) : Option (List (St × Option St
     let fs := Step.apply st.fs (.mkdirAll (blockDir b.h))
     if kind == "intact" then some [({ st with fs := fs.set (blockPath b.h) ⟨b.data, 0⟩ }, none)]
     else if kind == "corrupt" then some [({ st with fs := fs.set (blockPath b.h) ⟨corruptOf b.data, 0⟩ }, none)]
+    else if kind == "longer" then
+      some [({ st with fs := fs.set (blockPath b.h) ⟨b.data ++ "EXTRA".toUTF8.toList, 0⟩ }, none)]
+    else if kind == "shorter" then
+      some [({ st with fs := fs.set (blockPath b.h) ⟨b.data.take (b.data.length / 2), 0⟩ }, none)]
     else if kind == "trash" then some [({ st with fs := fs.set (trashPath b.h futT) ⟨b.data, 0⟩ }, none)]
     else none
   | ["tick"] =>
@@ -313,6 +318,31 @@ def stepOp (st : St) (op : String) (last : Bool) : Option (List (St × Option St
     let evs := fullA.1.take cutA ++ rB.1.take cutB ++ fullA.1.drop cutA ++ b2
     let st2 := { st with sfx := st.sfx + 2, fs := run st.fs evs }
     some [(st2, seg st2 (if endS == "kill" then "killed/200" else "200&" ++ resB) (allPoints evs))]
+  | ["pool", ss, as, bs, jas] => do
+    -- an upload cut short (500, nothing happens on the volume), then PUT A held after ja chunks of
+    -- 4096 bytes, PUT B from start to end, A released
+    let s ← parseBody ss
+    let a ← parseBody as
+    let b ← parseBody bs
+    let ja ← jas.toNat?
+    if s.data.length < 2 || a.h == b.h then none
+    let st := ((st.note s).note a).note b
+    let allA := splitChunks 4096 a.data
+    if ja > allA.length then none
+    let hp (x : Body) (sfx : Nat) (chunks : List Bytes) : List Ev × Resp :=
+      handlePut (hashOf st) st.fs
+        ⟨x.h, x.data, nowT, none,
+         [⟨x.h, natDigits sfx, chunks, .eof, .none, nowT, (st.fs.get (blockPath x.h)).isSome⟩], false, false, st.full⟩
+    let rA := hp a st.sfx allA
+    let rB := hp b (st.sfx + 1) (if b.data.isEmpty then [] else [b.data])
+    if !(allPoints rA.1).any (fun p => p.startsWith "WriteBlock:") then none
+    let cutA := (compareEvs st.fs a.h).length + 3 + ja
+    let evs := rA.1.take cutA ++ rB.1 ++ rA.1.drop cutA
+    let code : Resp → String
+      | .ok200 => "200" | .badRequest => "400" | .hashMismatch => "422" | .collision => "500"
+      | .disconnect => "503" | .fail => "500" | .full => "503"
+    let st2 := { st with sfx := st.sfx + 2, fs := run st.fs evs }
+    some [(st2, seg st2 s!"500&{code rA.2}&{code rB.2}" (allPoints evs))]
   | ["wb", bs, cs, rd, ls, ms] => do
     let b ← parseBody bs
     let mode ← parseMode ms
